@@ -223,11 +223,24 @@ def run_request(it, own, peer):
     ac, answers, ac_user, ac_ml = association_ac(it, cfg, peer)
     remote = DictVal([('key', 'aet', p.fresh('remote_aet', smt.Str)), ('key', 'address', p.fresh('address', smt.Str)),
                       ('key', 'port', p.fresh_int('port'))])
+    # the remote entity's configuration may ask for user identity negotiation, and the caller may pass
+    # further user-information sub-items: every variant of what _request appends behind the two
+    # mandatory sub-items
+    variant = p.choose([True] * 7, 'user identity / extra sub-items variant')
+    ident = [None, ('username', 'password'), ('username',), ('kerberos',), ('saml',), ('jwt',), None][variant]
+    for k in (ident or ()):
+        remote.entries.append(('key', k, 'secret-' + k))
+    remote.cindex = None
+    users_pdu = None
+    if variant == 6:
+        ud = it.modules['pynetdicom2.userdataitems']
+        users_pdu = ListVal([it.instantiate(ud.attrs['ScpScuRoleSelectionSubItem'], ['1.2.3', 0, 1], {})])
     local = DictVal([('key', 'aet', p.fresh('local_aet', smt.Str)), ('key', 'address', p.fresh('node', smt.Str))])
     me = new_requester(it, cfg, own, [ac], table, remote)
     out = dict(cfg=cfg, table=table, items=items, tsseq=tsseq, ac=ac, answers=answers, remote=remote, local=local,
                me=me, ac_ml=ac_ml)
-    out['result'] = it.call(asc.attrs['AssociationRequester'].lookup('_request')[0], [me, local, remote], {})
+    out['result'] = it.call(asc.attrs['AssociationRequester'].lookup('_request')[0], [me, local, remote],
+                            {'users_pdu': users_pdu} if users_pdu is not None else {})
     return out
 
 
